@@ -1933,6 +1933,16 @@ def merge_values(rets, ex=None):
         a0 = realv[0] if realv else vals[0]
         fns = [(c, (v.cur() if not getattr(v, "is_empty_literal", False) else (lambda idx: tm.rconst(0)))) for c, v in rets]
         dts = {v.dtype for v in (realv or vals)}
+        if len(dts) != 1:
+            # the dtype of the result depends on the path (e.g. a buffer that is float32 above some size): an array has ONE dtype,
+            # so the alternatives cannot be folded into one array; the caller's path is split on the callee's conditions instead
+            ex_ = ex
+            if ex_ is None or ex_.merge_mode or ex_.trail is None:
+                raise OutOfSubset(f"arrays of different dtype {sorted(dts)} on different paths of a nested call")
+            for c, v in rets[:-1]:
+                if ex_.decide(c):
+                    return v
+            return rets[-1][1]
 
         def fn(idx):
             r = fns[-1][1](idx)
